@@ -301,7 +301,7 @@ func compareAttrValue(limit int, orig, got attribute.Value) (bool, string) {
 
 func main() {
 	vf.Main("C04", "exploration", func(c *vf.Ctx) {
-		c.Rule = "seeded programs of 0-60 span API calls (Start options, SetAttributes with duplicate/empty/invalid keys over 8 types, AddEvent, AddLink incl. the ignored empty link, RecordError, SetStatus, SetName, End with/without timestamp, post-End calls) under limit vectors drawn from {-1,0,1,2,3,5,128}^6, strings around the length limit in bytes and runes with invalid bytes and literal U+FFFD. distinct = distinct (limit vector class, paths taken: hit-limit/over-cap/update-while-full/truncated/evicted) signatures"
+		c.Rule = "seeded programs of 0-60 span API calls (Start options, SetAttributes with duplicate/empty/invalid keys over 8 types, AddEvent, AddLink incl. the ignored empty link, RecordError, SetStatus, SetName, End with/without timestamp, post-End calls) under limit vectors drawn from {-1,0,1,2,3,5,128}^6, strings around the length limit in bytes and runes with invalid bytes and literal U+FFFD; event attribute options are prefixes of caller-owned arrays with canaries behind them. distinct = distinct (limit vector class, paths taken: hit-limit/over-cap/update-while-full/truncated/evicted) signatures"
 		c.Assume = []string{"attribute order is unspecified and not asserted", "value-length limit asserted for span attributes only (event/link attribute values are not truncated by design)", "exception.stacktrace checked for presence only"}
 
 		c.Cases("programs", c.N(60_000, 1_000_000), 0, func(k *vf.Case) {
